@@ -352,6 +352,10 @@ func checkTempCleanup(p *Program, obs *obSet, key string, fn *ssa.Function, rena
 		return
 	}
 	h := hits[0]
+	if strings.Contains(key, "temporary directory") && calleeName(h.remove.Common()) == "os.Remove" {
+		obs.fail(key, p.InstrPos(h.remove), "the temporary DIRECTORY is removed with os.Remove, which fails on a non-empty directory (it holds the data and metadata files): the partial snapshot is left behind", nil)
+		return
+	}
 	var facts []string
 	facts = append(facts, "removal: "+siteKey(nil, h.remove))
 	// success flags: cells that must be false for the removal to happen and that fn sets to true
